@@ -384,6 +384,15 @@ func processGoCallableArg(arg reflect.Value, param goCallableParam) (reflect.Val
 		if arg.CanInterface() {
 			return arg.Interface().(jtypes.Convertible).ConvertTo(paramType)
 		}
+	case paramType == typeInterfaceSlice && argType != typeByteSlice &&
+		(arg.Kind() == reflect.Slice || arg.Kind() == reflect.Array):
+		// An array of any other type is an array too (library
+		// functions return []string, for example).
+		s := reflect.MakeSlice(typeInterfaceSlice, arg.Len(), arg.Len())
+		for i, N := 0, arg.Len(); i < N; i++ {
+			s.Index(i).Set(arg.Index(i))
+		}
+		return s, true
 	}
 
 	return undefined, false
